@@ -589,6 +589,7 @@ where
             })?;
         let buf = trim_trail_empty_bytes(&self.buffer);
         if buf.is_empty() {
+            self.position += len as u64;
             return Ok(PrimitiveValue::Empty);
         }
 
@@ -628,6 +629,7 @@ where
             })?;
         let buf = trim_trail_empty_bytes(&self.buffer);
         if buf.is_empty() {
+            self.position += len as u64;
             return Ok(PrimitiveValue::Empty);
         }
 
@@ -660,6 +662,7 @@ where
             })?;
         let buf = trim_trail_empty_bytes(&self.buffer);
         if buf.is_empty() {
+            self.position += len as u64;
             return Ok(PrimitiveValue::Empty);
         }
 
@@ -697,6 +700,7 @@ where
             })?;
         let buf = trim_trail_empty_bytes(&self.buffer);
         if buf.is_empty() {
+            self.position += len as u64;
             return Ok(PrimitiveValue::Empty);
         }
 
@@ -729,6 +733,7 @@ where
             })?;
         let buf = trim_trail_empty_bytes(&self.buffer);
         if buf.is_empty() {
+            self.position += len as u64;
             return Ok(PrimitiveValue::Empty);
         }
 
